@@ -36,12 +36,6 @@ func IsDangerousURL
 
 // the three places that put a URL into href/src: in safe mode the URL that gets escaped and written
 // is never one the property calls dangerous (for e-mail autolinks the href starts with "mailto:")
-func (*Renderer).renderLink
-  callassert [safeHref] util.EscapeHTML#1: r.Unsafe || !dangerous(arg0)
-func (*Renderer).renderImage
-  callassert [safeSrc] util.EscapeHTML#1: r.Unsafe || !dangerous(arg0)
-func (*Renderer).renderAutoLink
-  callassert [safeHref] util.EscapeHTML#1: r.Unsafe || n.AutoLinkType == ast.AutoLinkEmail || !dangerous(arg0)
 
 // ---- safe-mode output (C03): whatever reaches the output writer is a template literal or inert bytes ----
 // rawAllowed(): this render runs in unsafe mode (each node renderer assumes rawAllowed() <==> r.Unsafe)
@@ -86,14 +80,53 @@ func (*Renderer).renderHTMLBlock
   requires rawAllowed() <==> r.Unsafe
 func (*Renderer).renderRawHTML
   requires rawAllowed() <==> r.Unsafe
-// String nodes flagged "code" are written as is: their value comes from extension configuration (typographer
-// substitutions), not from the source, and is required to be inert
+// treeInv(): assumptions about the tree handed to the renderer that are established elsewhere (and not
+// verified here): attribute names are inert (the attribute parser accepts [A-Za-z_:][A-Za-z0-9_.:-]* only) and
+// String nodes flagged "code" carry inert bytes (they come from extension configuration - typographer
+// substitutions -, not from the source).
+ghost treeInv() bool
+macro attrsInert(v) = forall ak int :: (0 <= ak && ak < len(ast.bn(v).attributes)) ==> util.inert(ast.bn(v).attributes[ak].Name)
+defaxiom treeInvDef: treeInv() ==> ((forall v addr {len(ast.bn(v).attributes)} :: v != nil ==> attrsInert(v)) &&
+   (forall sp addr :: ast.strIsCode(ptr(sp, "*ast.String").flags) ==> util.inert(ptr(sp, "*ast.String").Value)))
+
 func (*Renderer).renderString
-  requires (typeis(node, "*ast.String") && ast.strIsCode(ifptr(node, "*ast.String").flags)) ==> (rawAllowed() || util.inert(ifptr(node, "*ast.String").Value))
-// attribute names are written verbatim: the tree is required to carry only inert names (the attribute parser
-// accepts [A-Za-z_:][A-Za-z0-9_.:-]* only; that postcondition is not verified here)
+  uses treeInvDef
+  requires rawAllowed() || treeInv()
 func RenderAttributes
-  requires node != nil
-  requires forall k int :: 0 <= k && k < len(ast.bn(node).attributes) ==> util.inert(ast.bn(node).attributes[k].Name)
+  uses treeInvDef
+  requires node != nil && treeInv()
   modifies nothing
+func (*Renderer).renderTexts
+  requires treeInv()
+func (*Renderer).renderAutoLink
+  requires treeInv()
+  callassert [safeHref] util.EscapeHTML#1: r.Unsafe || n.AutoLinkType == ast.AutoLinkEmail || !dangerous(arg0)
+func (*Renderer).renderBlockquote
+  requires treeInv()
+func (*Renderer).renderCodeSpan
+  requires treeInv()
+func (*Renderer).renderEmphasis
+  requires treeInv()
+func (*Renderer).renderHeading
+  requires treeInv()
+func (*Renderer).renderImage
+  requires treeInv()
+  callassert [safeSrc] util.EscapeHTML#1: r.Unsafe || !dangerous(arg0)
+func (*Renderer).renderLink
+  requires treeInv()
+  callassert [safeHref] util.EscapeHTML#1: r.Unsafe || !dangerous(arg0)
+func (*Renderer).renderList
+  requires treeInv()
+func (*Renderer).renderListItem
+  requires treeInv()
+func (*Renderer).renderParagraph
+  requires treeInv()
+func (*Renderer).renderThematicBreak
+  requires treeInv()
+func (*Renderer).renderFencedCodeBlock
+  requires treeInv()
+func (*Renderer).renderCodeBlock
+  requires treeInv()
+func (*Renderer).renderTextBlock
+  requires treeInv()
 @*/
